@@ -4,7 +4,7 @@
 From Coq Require Import NArith ZArith List Bool.
 Import ListNotations.
 Require Import UV.Gen.Consts UV.Mcount.Model UV.Mcount.Forest UV.Mcount.PlainStep UV.Mcount.PlainProofs
-  UV.Mcount.Codec UV.Mcount.PlainMore UV.Mcount.Overflow UV.Mcount.Embed UV.Mcount.EmbedOver UV.Mcount.EmbedMore UV.Mcount.Check UV.Mcount.Monotone UV.Mcount.Threads UV.Mcount.ForkChild.
+  UV.Mcount.Codec UV.Mcount.PlainMore UV.Mcount.Overflow UV.Mcount.Embed UV.Mcount.EmbedOver UV.Mcount.EmbedMore UV.Mcount.Check UV.Mcount.Monotone UV.Mcount.Threads UV.Mcount.ForkChild UV.Mcount.Restore UV.Mcount.Method.
 Local Open Scope N_scope.
 
 (* Writer and readers agree on the record word: the hand-packed word of record_ret_stack decodes,
@@ -155,3 +155,12 @@ Theorem C02_child_writes_no_inherited_entry : forall c es s hk,
          (out (fst (exec c es (do_fork_child s, hk)))).
 Proof. exact child_writes_no_inherited_entry. Qed.
 Print Assumptions C02_child_writes_no_inherited_entry.
+
+(* "for all instrumentation methods": for EVERY configuration and every call forest that fits into --max-stack the
+   -pg / fentry / patchable shape and the -finstrument-functions shape write the same stream (Mcount/Method.v: a
+   simulation between the two runs). *)
+Theorem C02_same_stream_for_every_method : forall c z f, heights f <= max_stack c ->
+  out (fst (exec (pg_of c) (flat_forest f) (init_z z, []))) =
+  out (fst (exec (cyg_of c) (flat_forest f) (init_z z, []))).
+Proof. exact method_independent_all. Qed.
+Print Assumptions C02_same_stream_for_every_method.
